@@ -29,7 +29,9 @@ ASSUMPTIONS = [
     "a skipped entry counts as named when a WARNING record contains its file value (as written or resolved)",
 ]
 
-HDRS = {"cb/include/h.h": "cb/include", "cb/src/inc/k.h": "cb/src/inc", "cb/build/gen.h": "cb/build", "outbuild/og.h": "outbuild"}
+HDRS = {"cb/include/h.h": "cb/include", "cb/src/inc/k.h": "cb/src/inc", "cb/build/gen.h": "cb/build", "outbuild/og.h": "outbuild",
+        # a per-build-directory generated header: same name, different content, found through `-I.`
+        "cb/build/cfg.h": "cb/build", "outbuild/cfg.h": "outbuild", "cb/include/cfg.h": "cb/include"}
 DIRECTORIES = ["cb", "cb/build", "outbuild", "cb/src"]
 
 
@@ -70,8 +72,10 @@ def case_strategy():
                 all_dirsets.append(set(idirs))
                 cmds.append({"file": draw(st.sampled_from(srcs)), "defines": draw(gen_pp.define_sets()), "dirs": [["I", d] for d in idirs], "forced": []})
             plats[f"p{pi}"] = cmds
-        common = set.intersection(*all_dirsets) if all_dirsets else set()
-        angle_ok = {os.path.basename(h) for h in present if HDRS[h] in common}
+        # a name may be included in angle form when every command finds it in one of its -I directories
+        angle_ok = {os.path.basename(h) for h in present}
+        for ds in all_dirsets:
+            angle_ok &= {os.path.basename(h) for h in present if HDRS[h] in ds}
         for s in srcs:
             quote_ok = set(angle_ok)
             if s.startswith("cb/src/") and "cb/src/inc/k.h" in present:
